@@ -58,7 +58,8 @@ func (cr *consRenderer) block(ss []any, ind string) string {
 				}
 				b.WriteString(ind + "\t_ = v\n" + cr.block(body, ind+"\t") + ind + "}\n")
 			} else {
-				b.WriteString(ind + "for v = range " + it + " {\n" + cr.block(body, ind+"\t") + ind + "}\n")
+				hdr := map[string]string{"asg": "for v = range ", "none": "for range ", "blank": "for _ = range "}[str(m["tok"])]
+				b.WriteString(ind + hdr + it + " {\n" + cr.block(body, ind+"\t") + ind + "}\n")
 			}
 		default:
 			panic("unknown consumer statement " + canon(m))
